@@ -145,7 +145,6 @@ func (r *refKV[K]) Range(fn func(K, int) bool) {
 }
 func (r *refKV[K]) Clear() { r.ks, r.vs = nil, nil } // the property: Clear empties the map
 
-
 func fstep[K comparable](s kvLike[K], all func() int, parse func(string) (K, bool), show func(K) string, t []string) string {
 	key := func(i int) (K, bool) {
 		var z K
